@@ -57,3 +57,15 @@ Proof. vm_compute. reflexivity. Qed.
    one encoder shape whose elements bypass the encode hooks does not occur *)
 Lemma schema_no_arrays_l : array_types = [].
 Proof. vm_compute. reflexivity. Qed.
+
+(* the struct levels whose `,remain` field is not a map (otelconf's AdditionalProperties below
+   service::telemetry): guarded by confmap since fix 2d582bf11, they reject unknown keys like any level
+   without remain.  The levels are dumped by T3; there must be some (else the regression stream is empty) *)
+Lemma remain_levels_strict_l name T v p k :
+  In (name, T) remain_levels -> unk T v p k -> decode_strict_ok T v = false /\ In (p, k) (unused T v).
+Proof. intros _. apply decode_strict_l. Qed.
+
+Lemma remain_levels_guarded_l :
+  forallb (fun e => no_remain (snd e)) remain_levels = true /\ (5 <=? List.length remain_levels)%nat = true.
+Proof. vm_compute. split; reflexivity. Qed.
+
